@@ -115,6 +115,17 @@ def serial_scenarios(tier, seed):
                             "callers": [{"name": "A", "mode": "send", "unit": [[key, 2], ["q16", 3]]},
                                         {"name": "B", "mode": "sequence", "unit": [["q16", 8], ["dapc", 9]], "start": {"writes": 3}}],
                             "tail_sends": 20, "tag": "silent-confirm"})
+            # the gateway dies for good at the k-th command, possibly in the middle of a report: every send from then on
+            # fails within the documented timeout, nobody hangs, the lock is free
+            for k in (1, 2):
+                for cut in (0, 1, 2, 4, 6, 9):
+                    if key in ("q16", "cfg") or cut in (0, 4):
+                        scs.append({"driver": drv, "silent_from": k, "truncate_confirm": cut, "outcomes": [["val", 9]],
+                                    "callers": [{"name": "A", "mode": "send", "unit": [[key, 2], ["q16", 3]]},
+                                                {"name": "B", "mode": "send", "unit": [["q16", 8]], "start": {"time": 6.0}},
+                                                {"name": "C", "mode": "sequence", "unit": [["dapc", 9], ["q16", 10]],
+                                                 "start": {"time": 12.0}}],
+                                    "tail_sends": 0, "tag": "dies-mid-report"})
             for outcome in (["none", 0], ["err", 0]):
                 scs.append({"driver": drv, "outcomes": [outcome],
                             "callers": [{"name": "A", "mode": "send", "unit": [[key, 2], ["q16", 3]]}], "tail_sends": 5,
@@ -193,7 +204,8 @@ def run(tier, seed, replay=None):
         out.traces = len(recs)
         out.evaluations = sum(r["iterations"] for r in recs)
         out.distinct_nontrivial = len({repr(r["scenario"]) for r in recs if r.get("lost_at", -1) >= 0 or
-                                       any(c.get("cancelled") for c in r["callers"]) or r["scenario"].get("silent_confirm")})
+                                       any(c.get("cancelled") for c in r["callers"]) or r["scenario"].get("silent_confirm")
+                                       or r["scenario"].get("silent_from")})
         out.rule = ("one run per fault scenario; evaluations = event loop iterations executed; non-trivial = distinct "
                     "scenarios in which the device was actually lost, a caller was actually cancelled, or the serial "
                     "gateway stayed silent; every run ends with the device back and 300 (serial: 5-20) further sends")
